@@ -321,6 +321,19 @@ def run(a, res):
                     return
                 outcome2, info2 = attempt_case(lab, c, 1)
                 if outcome2 == "stall":
+                    # a wall-clock watchdog is only a verdict if squid itself is responsive at that moment: an ordinary request on a
+                    # fresh connection must be answered promptly while the pipelined connection stays silent (on an overloaded
+                    # machine both are slow, and the stall says nothing about squid)
+                    t_probe = time.time()
+                    try:
+                        pm = lab.fetch("GET", f"/c05probe/{c['seed']}/{c['n']}", req_id=f"{c['seed']}.{c['n']}.probe", timeout=10)
+                        prompt = pm.start is not None and (time.time() - t_probe) < 4.0
+                    except OSError:
+                        prompt = False
+                    if not prompt:
+                        res.count("stall_not_judged_squid_slow_to_answer_a_probe")
+                        res.note(f"stall in case {c['n']} not judged: a probe request took {time.time() - t_probe:.1f}s (machine load)")
+                        return
                     key = classify(c, pf, info2)
                     confirmed.add(key)
                     res.violation(key, f"prefetch {pf}: {info2[0]} (answered {info2[1]}/{info2[2]}), reproduced on re-run; methods={[q['method'] for q in c['reqs']]} "
